@@ -185,6 +185,16 @@ ORIGIN = {
  'C12-torn-append-rolled-back-under-bufwriter': 'caught by the rule written for F45 (the error arm of the append gives up the writer)',
  'C10-node-changes-planned-before-keyed-changes': 'rule added after this seed exposed the gap (C10 9a: keyed changes of a set are planned before its node changes)',
 }
+NEEDS.update({
+ 'C10-increment-once-per-parent': 'a live tree A that owns node X, a new tree B with ONE node listing Existing(X) twice or more, and the removal of B while A is still live',
+ 'C12-flush-skips-when-map-locked': 'the cleanup stage running exactly while the applier is inside a table-file grow, an enacted and not yet cleaned log that wrote to that table, then power loss',
+ 'C16-log-counted-cleaned-before-truncation': 'an I/O fault exactly at the rewind / set_len of the OLDEST log in the cleanup step, a younger enacted log queued behind it, shutdown on a thread where I/O works, both logs touching a common entry',
+})
+ORIGIN.update({
+ 'C10-increment-once-per-parent': 'rule added after this seed exposed the gap (C10 11b: on the Existing arm of the flattening every packed occurrence pushes its IncrementReference; 11a watched the list only after its production)',
+ 'C12-flush-skips-when-map-locked': 'the rule existed (C12 2s) but its pruning took the None of `try_read()` for "no mapping": corrected in lib.prune_option_field (the None of a try-lock says that the lock is taken)',
+ 'C16-log-counted-cleaned-before-truncation': 'rule added after this seed exposed the gap (q2: the position that separates cleaned from re-queued logs moves past a log only after its truncation succeeded)',
+})
 NOT_DETECTED = {
  'C06-tier-from-uncompressed-length': 'value-level: the size tier becomes Option::min of two searches, and None (= blob table) orders below Some(k); which tier index a length maps to is arithmetic over table sizes, outside the structural clauses claimed for C06 (layout constants, same-tier replacement, size-word bound). A rule pinning the shape of the tier computation ("exactly one search, no min/max") would also fire on harmless rewrites and was not written',
  'C04-rebalance-from-right-child-slot': 'value-level: the moved child pointer is stored one slot too far because a separator count is re-read after an append; which array slot a child lands in is index arithmetic inside Node::rebalance, outside the structural clauses claimed for C04 (ordering of the change set, iterator re-seek, sentinel handling, in-place result inspected)',
